@@ -305,6 +305,7 @@ P = {
   technique="statement-order / dominance checks + decision table"),
 "C26": dict(
   decided={
+    "C26.g": "registry functions evaluated on a sample registry: languages_for_file (name equals or matches the pattern), generator_description (own generator, else 'any' with any_permitted, else TextXRegistrationError; names lower-cased), clear_generator_registrations (registry unset)",
     "C26.a": "every registry subscript / membership / get uses a lower()-normalised key (reaching definitions)",
     "C26.b": "registry reads are dominated by lazy (re)discovery; clearing languages invalidates the metamodel cache",
     "C26.c": "duplicate registration raises",
@@ -347,6 +348,7 @@ P = {
   technique="taint analysis (sources: model text; sanitizers: dot_escape/dot_repr/html_escape; sinks: f.write)"),
 "C30": dict(
   decided={
+    "C26.g": "registry functions evaluated on a sample registry: languages_for_file (name equals or matches the pattern), generator_description (own generator, else 'any' with any_permitted, else TextXRegistrationError; names lower-cased), clear_generator_registrations (registry unset)",
     "C30.a": "custom argument keys are '-'->'_' normalised at every store (sibling branches)",
     "C30.b": "validation table: missing mandatory / undeclared given -> TextXError before the generator call",
     "C30.c": "every handler of TextXError in check/generate logs and exits 1",
